@@ -118,3 +118,17 @@ Theorem C15_lq_fields_kept : forall os d,
              /\ exists u, In u (added_urls os) /\ row_fields r = url_fields u).
 Proof. exact lq_fields_kept_lemma. Qed.
 Print Assumptions C15_lq_fields_kept.
+
+(* The feed side: a fetch round of any number of concurrent sub-fetches, completing in any order,
+   any of them failing - everything a successful sub-fetch received is passed on (becomes a seed if
+   it parses, is acknowledged at once if not), nothing else is. *)
+Theorem C15_feed_round_keeps_all : forall (parses : bytes -> bool) (results : list (option (list seed))),
+  (forall u, In u (round_urls results) <-> exists us, In (Some us) results /\ In u us)
+  /\ (forall us u, In (Some us) results -> In u us ->
+        (parses (sd_raw u) = true -> In u (seeds_of parses (round_urls results)))
+        /\ (parses (sd_raw u) = false -> In (sd_id u) (auto_finished parses (round_urls results))))
+  /\ (forall a b : list (option (list seed)), round_urls (a ++ b) = round_urls a ++ round_urls b)
+  /\ List.length (round_urls results)
+     = fold_right (fun r n => match r with Some us => List.length us + n | None => n end) 0 results.
+Proof. exact feed_round_keeps_all_lemma. Qed.
+Print Assumptions C15_feed_round_keeps_all.
